@@ -8,33 +8,19 @@ import (
 	oid "github.com/nspcc-dev/neofs-sdk-go/object/id"
 )
 
-// VerifCounters returns the in-memory accounting of the cache: total size and the
-// (address, size) list sorted by address string. ok=false if c is not the real cache.
-func VerifCounters(c Cache) (size uint64, objs []string, sizes []uint64, ok bool) {
-	cc, ok := c.(*cache)
-	if !ok {
-		return 0, nil, nil, false
-	}
-	m := cc.objCounters.Map()
-	for a := range m {
-		objs = append(objs, a.EncodeToString())
-	}
-	sort.Strings(objs)
-	for _, s := range objs {
-		var a oid.Address
-		_ = a.DecodeString(s)
-		sizes = append(sizes, m[a])
-	}
-	return cc.objCounters.Size(), objs, sizes, true
-}
+// VerifCountersSize returns the size the cache reports as used.
+func VerifCountersSize(c Cache) uint64 { return c.(*cache).objCounters.Size() }
 
-// VerifInFlight returns the number of addresses currently handed to (or queued for) flush workers.
-func VerifInFlight(c Cache) int {
-	cc, ok := c.(*cache)
-	if !ok {
-		return 0
-	}
-	n := 0
-	cc.flushObjs.Range(func(_, _ any) bool { n++; return true })
-	return n
+// VerifCountersMap returns the per-object accounting map.
+func VerifCountersMap(c Cache) map[oid.Address]uint64 { return c.(*cache).objCounters.Map() }
+
+// VerifFlushObjs lists addresses currently marked as being processed by the flusher.
+func VerifFlushObjs(c Cache) []string {
+	var r []string
+	c.(*cache).flushObjs.Range(func(k, _ any) bool {
+		r = append(r, k.(oid.Address).String())
+		return true
+	})
+	sort.Strings(r)
+	return r
 }
